@@ -78,6 +78,9 @@ def run(chk, tier):
         n += 1
     if n < 20:
         chk.analysis_broken("CALL1: only %d wrappers analysed (floor 20)" % n)
+    nvt = L.vt_rule(chk, db, L.slot_signatures(db), "VT")
+    if nvt < 8:
+        chk.analysis_broken("VT: only %d special members of table-dispatching owners analysed (floor 8)" % nvt)
     # SRC: copying an inplace_function leaves the source callable alive (no relocation slot on a const source)
     if L.const_source_rule(chk, db, L.slot_signatures(db), "SRC") < 2:
         chk.analysis_broken("SRC: fewer than 2 copying members of inplace_function found")
